@@ -10,6 +10,7 @@ import XV.Drv.EncMain
 import XV.Drv.Sched
 import XV.Drv.Pool
 import XV.Drv.Contract
+import XV.Drv.BftMatch
 /-! line-protocol model driver: `xvdriver <engine> < ops.txt > model.out` -/
 def main (args : List String) : IO UInt32 := do
   match args with
@@ -25,4 +26,5 @@ def main (args : List String) : IO UInt32 := do
   | ["sched"] => XV.Drv.Sched.run; return 0
   | ["pool"] => XV.Drv.Pool.run; return 0
   | ["contract"] => XV.Drv.Contract.run; return 0
+  | ["bftmatch"] => XV.Drv.BftMatch.run; return 0
   | _ => IO.eprintln "usage: xvdriver <engine>"; return 2
